@@ -19,7 +19,8 @@ REQUIRED_THEOREMS = [
     'C10_delivered_completed', 'C10_delivered_total', 'C10_delivered_rate', 'C10_table', 'C10_table_none', 'C10_table_all',
     'C10_table_rows_applied', 'C10_table_counterexample', 'C10_table_counterexample_start',
     'C10_dataset_rows', 'C10_dataset_row_amount', 'C10_multi_partial', 'C10_overlap_counterexample',
-    'C10_surgery_direct', 'C10_surgery_indirect']
+    'C10_surgery_direct', 'C10_surgery_indirect', 'C10_delivered_integral', 'paceStep_eq_pace',
+    'C10_multi_nonoverlap', 'C10_dataset_delivery']
 RULE = ('regimens (dose, start, duration, period|None, num|None) with dyadic numbers (and the default 0.01 '
         'duration), single / finite / indefinite, incl. ill-formed ones (zero duration, duration > period, '
         'negative start, num without period); final times on every boundary (None, < start, = start, '
@@ -249,6 +250,56 @@ def check_simulated(ctx, chi, models, reg, kind, direct, rng):
             ctx.spec('C10.protocol_attached/after_sensitivity_switching', False, dict(inp, steps=list(done)),
                      {'raised': repr(e)[:200]})
     model.enable_sensitivities(False)
+    # generalisation: a random history of every call that rebuilds or replaces the solver — the regimen set
+    # before it must still be what the simulated system receives (and what dosing_regimen() reports)
+    hist = []
+    cur = model
+    try:
+        for _ in range(int(rng.integers(2, 6))):
+            r = rng.random()
+            if r < 0.2:
+                cur.enable_sensitivities(True)
+                hist.append('enable')
+            elif r < 0.35:
+                cur.enable_sensitivities(True, names[:1])
+                hist.append('enable(selection)')
+            elif r < 0.5:
+                cur.enable_sensitivities(False)
+                hist.append('disable')
+            elif r < 0.65:
+                cur = cur.copy()
+                hist.append('copy')
+            elif r < 0.8:
+                cur.set_outputs(list(cur.outputs()))
+                hist.append('set_outputs')
+            else:
+                cur.set_administration('central', direct=direct)
+                hist.append('set_administration(same route)')
+        use_reduced = bool(rng.random() < 0.4)
+        sim = cur
+        vec = lib_vector(cur, vals)
+        if use_reduced:
+            sim = chi.ReducedMechanisticModel(cur)
+            sim.enable_sensitivities(True)
+            sim.fix_parameters({'central.size': V})          # re-enables for the free parameters
+            hist.append('reduced: enable, then fix central.size')
+            vec = [v for n, v in zip(cur.parameters(), vec) if n != 'central.size']
+        refsim.clear_record()
+        out = sim.simulate(vec, times)
+        res = np.asarray(out[0] if isinstance(out, tuple) else out)
+        run = [r_ for r_ in refsim.RECORD if r_[1] == 'run'][-1][2]
+        reported = cur.dosing_regimen()
+        ok = reported is not None and run['protocol'] == reported.code() and \
+            [ev_tuple(e) for e in reported.events()] == [ev] and \
+            core.close(list(res.sum(axis=0)), want, TOL, 1e-9)
+        ctx.spec('C10.protocol_attached/after_history', ok, dict(inp, history=hist),
+                 {'protocol at run': run['protocol'], 'reported': None if reported is None else reported.code(),
+                  'cumulative input': res.sum(axis=0), 'scheduled': want})
+        ctx.case('history/' + route, nontrivial='history/%s/%s' % (route, '+'.join(sorted(set(hist)))))
+    except Exception as e:  # noqa
+        ctx.spec('C10.protocol_attached/after_history', False, dict(inp, history=hist), {'raised': repr(e)[:300]})
+    models[direct] = cur
+    cur.enable_sensitivities(False)
 
 
 def check_generated_dosing(ctx, chi, i, rng):
@@ -473,7 +524,7 @@ def gen_dataset(rng, output):
         n_dose = int(rng.integers(0, 5))
         times = rng.choice(np.arange(0, 41) / 4.0, size=n_dose, replace=bool(mode < 0.08))
         for t in times:
-            dur = float(rng.choice([1, 2, 4, 8])) / 16 if rng.random() < 0.6 else np.nan
+            dur = float(rng.choice([1, 2, 4, 8, 16, 32])) / 16 if rng.random() < 0.6 else np.nan
             dose = float(rng.integers(1, 33)) / 4
             tt = float(t) if rng.random() > 0.05 else np.nan
             rows.append({'ID': label, 'Time': tt, 'Observable': np.nan, 'Value': np.nan,
@@ -528,10 +579,18 @@ def check_dataset(ctx, chi, controller, df, with_duration, inp):
         ok = core.close(cev, want, 1e-12)
         all_ok = all_ok and ok
         ctx.spec('C10.dataset_rows', ok, dict(inp, individual=label), {'events': cev, 'dose rows': want})
+        if cev and len({e[1] for e in cev}) == len(cev):
+            grid = [k_ / 16.0 for k_ in range(int((max(e[1] + e[2] for e in cev) + 0.5) * 16) + 1)]
+            mm = ctx.model('C10.pacemulti', cev, grid)
+            ctx.agree('C10.pacemulti', pacing_trace(regs[str(label)], grid), [float(rat(x)) for x in mm[0]],
+                      dict(inp, individual=label), rtol=0.0)
         # overlapping rows lose input (myokit lets the later event overrule the earlier one)
         if ok and len(want) > 1:
             overlap = any(want[j][1] + want[j][2] > want[j + 1][1] for j in range(len(want) - 1))
-            if overlap:
+            if overlap and ctx.extra.setdefault('overlap_rows_checked', 0) < 25:
+                # (Ctx keeps at most 200 failing records; the pacing of every such protocol is still compared
+                # with the model above)
+                ctx.extra['overlap_rows_checked'] += 1
                 check_overlap(ctx, regs[str(label)], want, dict(inp, individual=label))
     if regs is None:
         ctx.agree('C10.dataset_build', built, model_err, inp)
@@ -658,21 +717,21 @@ def run(ctx):
         witness_overlap(ctx, chi, controller, models[True], out)
 
         # --- generated regimens
-        n = 300 if quick else 4000
-        n_sim = 70 if quick else 600
+        n = 300 if quick else 6000
+        n_sim = 70 if quick else 1500
         for i in range(n):
             rng = ctx.sub_rng(i)
             reg, kind = gen_regimen(rng)
             direct = bool(i % 2 == 0)
-            got = check_regimen(ctx, models[direct], reg, kind, 'direct' if direct else 'indirect', i)
+            got = ctx.guard(check_regimen, ctx, models[direct], reg, kind, 'direct' if direct else 'indirect', i)
             if got is None:
                 continue
             ev, proto = got
             if reg['duration'] != 0.01:
                 pm.set_dosing_regimen(**reg)
-                check_table(ctx, pm, [ev], [reg], kind, rng, {'regimen': reg})
+                ctx.guard(check_table, ctx, pm, [ev], [reg], kind, rng, {'regimen': reg})
             if i < n_sim and reg['duration'] != 0.01:
-                check_simulated(ctx, chi, models, reg, kind, direct, rng)
+                ctx.guard(check_simulated, ctx, chi, models, reg, kind, direct, rng)
         # --- explicit protocols with several events
         for i in range(20 if quick else 300):
             rng = ctx.sub_rng(10 ** 5 + i)
@@ -692,7 +751,11 @@ def run(ctx):
                            reg['period'] or 0, reg['num'] or 0 if reg['period'] else 0)
             pm.set_dosing_regimen(p)
             evs = [ev_tuple(e) for e in p.events()]
-            check_table(ctx, pm, evs, regs, 'protocol', rng, {'protocol': regs})
+            ctx.guard(check_table, ctx, pm, evs, regs, 'protocol', rng, {'protocol': regs})
+            grid = [k_ / 8.0 for k_ in range(int((t0 + 1.0) * 8) + 1)]
+            mm = ctx.model('C10.pacemulti', evs, grid)
+            ctx.agree('C10.pacemulti', pacing_trace(p, grid), [float(rat(x)) for x in mm[0]],
+                      {'protocol': regs}, rtol=0.0)
             if i < (6 if quick else 60):
                 # an explicit protocol reaches the simulated system: cumulative input, elimination off
                 md = models[True]
@@ -717,10 +780,10 @@ def run(ctx):
         for i in range(80 if quick else 800):
             rng = ctx.sub_rng(2 * 10 ** 5 + i)
             df, with_duration = gen_dataset(rng, out)
-            check_dataset(ctx, chi, controller, df, with_duration, {'dataset': df.to_dict('list')})
+            ctx.guard(check_dataset, ctx, chi, controller, df, with_duration, {'dataset': df.to_dict('list')})
         # --- generated compartment models, dosed
-        for i in range(14 if quick else 150):
-            check_generated_dosing(ctx, chi, i, ctx.sub_rng(3 * 10 ** 5 + i))
+        for i in range(14 if quick else 400):
+            ctx.guard(check_generated_dosing, ctx, chi, i, ctx.sub_rng(3 * 10 ** 5 + i))
     finally:
         for d in c09._TMP:
             shutil.rmtree(d, True)
